@@ -145,26 +145,43 @@ func ruleSigDoc(r *core.Run) {
 	ck := &guard.Checker{P: r.P, Fn: clo, Res: r.Resolver(clo)}
 	member := guard.Eq("elem(*GetSidDocumentVersion(*free:owner*)#0.VersionList)", "#0")
 	n := 0
-	for _, b := range clo.Blocks {
-		ret, ok := b.Instrs[len(b.Instrs)-1].(*ssa.Return)
-		if !ok || len(ret.Results) == 0 {
-			continue
-		}
-		if c, isC := ret.Results[0].(*ssa.Const); isC && c.Value == nil {
-			continue // returns no document
-		}
-		n++
-		key := core.Key(id, fnName, fmt.Sprintf("document returned#%d", n))
-		ok2, w := ck.MustPass(b, []guard.Atom{member})
-		switch {
-		case ok2:
-			r.Discharge(id, key, r.P.Pos(ret.Pos()), "a document is returned only after the requested version id matched an element of the owner's version list")
-		case len(w) == 1 && w[0] == guard.StateBound:
-			r.Undecide(id, key, r.P.Pos(ret.Pos()), "abstract-state bound exceeded")
-		default:
-			r.Violate(id, key, r.P.Pos(ret.Pos()), "the sid-document lookup used for signature verification returns a document for a version id that was not tested against the claimed owner's own version list: a signer holding any sid document can name another DID in the kid (did:sid:<victim>?version-id=<own document>) and is accepted as that DID's owner", append([]string{"path (branch decisions):"}, w...)...)
+	var visit func(ck *guard.Checker, depth int)
+	visit = func(ck *guard.Checker, depth int) {
+		for _, b := range ck.Fn.Blocks {
+			ret, ok := b.Instrs[len(b.Instrs)-1].(*ssa.Return)
+			if !ok || len(ret.Results) == 0 {
+				continue
+			}
+			if c, isC := ret.Results[0].(*ssa.Const); isC && c.Value == nil {
+				continue // returns no document
+			}
+			ok2, w := ck.MustPass(b, []guard.Atom{member})
+			// the document is what a helper outside the vocabulary hands back: its own return sites are judged
+			if call, isCall := ret.Results[0].(*ssa.Call); isCall && !ok2 && depth < 3 && !call.Call.IsInvoke() {
+				if h := call.Call.StaticCallee(); h != nil && r.P.Transparent(h) && len(h.Blocks) > 0 {
+					subst := make([]string, len(h.Params))
+					for i, a := range call.Call.Args {
+						if i < len(subst) {
+							subst[i] = ck.T(a)
+						}
+					}
+					visit(&guard.Checker{P: r.P, Fn: h, Res: r.Resolver(h), Subst: subst, Parent: ck, ArgVals: call.Call.Args, Depth: depth + 1}, depth+1)
+					continue
+				}
+			}
+			n++
+			key := core.Key(id, fnName, fmt.Sprintf("document returned#%d", n))
+			switch {
+			case ok2:
+				r.Discharge(id, key, r.P.Pos(ret.Pos()), "a document is returned only after the requested version id matched an element of the owner's version list")
+			case len(w) == 1 && w[0] == guard.StateBound:
+				r.Undecide(id, key, r.P.Pos(ret.Pos()), "abstract-state bound exceeded")
+			default:
+				r.Violate(id, key, r.P.Pos(ret.Pos()), "the sid-document lookup used for signature verification returns a document for a version id that was not tested against the claimed owner's own version list: a signer holding any sid document can name another DID in the kid (did:sid:<victim>?version-id=<own document>) and is accepted as that DID's owner", append([]string{"path (branch decisions):"}, w...)...)
+			}
 		}
 	}
+	visit(ck, 0)
 	r.Floor("sigdoc_returns", n, 1)
 }
 
